@@ -207,9 +207,21 @@ Definition parse_finite (neg : bool) (s : bytes) : res dec :=
       if dcoef d' <? 0 then Err EParse else Ok d'))
   end).
 
+(* strings.TrimLeft(s, "+-") *)
+Fixpoint trim_left_signs (s : bytes) : bytes :=
+  match s with
+  | "+"%byte :: r => trim_left_signs r
+  | "-"%byte :: r => trim_left_signs r
+  | _ => s
+  end.
+
 Definition parse (s0 : bytes) : res dec :=
   (* if s == "" { s = "0" } *)
   let s := match s0 with [] => b "0" | _ => s0 end in
+  (* dec.go: if t := strings.TrimLeft(s, "+-"); HasPrefix(t, ".+") || HasPrefix(t, ".-") { reject }
+     (apd would strip the point and let big.Int.SetString read the sign: ".+5" = 0.05) *)
+  let t := trim_left_signs s in
+  if has_prefix (b ".+") t || has_prefix (b ".-") t then Err EParse else
   (* s, d.Negative = consumePrefix(s, "-"); if !d.Negative { s, _ = consumePrefix(s, "+") } *)
   let '(s1, neg) := consume_prefix s (b "-") in
   let s2 := if neg then s1 else fst (consume_prefix s1 (b "+")) in
